@@ -351,6 +351,14 @@ class ExtMixin:
             if all(isinstance(x, int) and 0 <= x <= 255 for x in cs):
                 return Bytes([(("const", bytes(cs)), Const(len(cs)))], "bytes")
             return Bytes([(("items", tuple(i.key() for i in items), tuple(items)), Const(len(items)))], "bytes")
+        if isinstance(v, Ref) and v.kind == "list" and st.heap[v.ident].opaque:
+            ln = (st.heap[v.ident].fields or {}).get("len")
+            part = [(("unknown", "list"), ln if ln is not None else Unknown(ty="int"))]
+            if kind == "bytearray":
+                r = st.alloc("bytearray", items=[], opaque=True)
+                st.heap[r.ident].fields = {"len": part[0][1]}
+                return r
+            return Bytes(part, "bytes")
         b = self.as_bytes(v, st)
         if b is not None:
             if kind == "bytearray":
